@@ -132,11 +132,9 @@ package queue
 //@   modifies nothing
 //@ extern ContextLogger.WithComponent
 //@   modifies nothing
-//@ extern DelayedPriorityQueue).ensureWindowIsUpdated
-//@   params dpq
-//@   modifies dpq.currentWindowEndTime, dpq.currentWindowCounter, now
 //@ func NewInMemoryDelayedPriorityQueue
 //@   prop C10
+//@   requires[window-length-validated-positive] queueKey.Strategy.WindowSize > 0
 //@   allocates DelayedPriorityQueue, map, ContextLogger
 //@   modifies now
 //@   spawn modifies heap
